@@ -26,19 +26,26 @@ struct TimedTaskImpl {
   TimedTaskImpl(size_t times, double next, double per, F&& f, Schedulable& sched, bool stdy)
       : timesToRun(times), nextAbsTime(next), period(per), steady(stdy) {
     func = [&sched, f = std::move(f), this](std::shared_ptr<TimedTaskImpl> me) {
-      if (flags.load(std::memory_order_acquire) & kFFlagsCancelled) {
+      // Announce the invocation *before* testing the cancelled flag.  ~TimedTask sets the flag and
+      // then waits for inProgress to drop to zero before it destroys this very closure; with the
+      // test first, a destruction landing between the test and the increment freed the closure
+      // (and the captured schedulable reference) under the scheduler thread.  Both sides use
+      // seq_cst so that either we see the flag or the destructor sees our increment.
+      inProgress.fetch_add(1, std::memory_order_seq_cst);
+      if (flags.load(std::memory_order_seq_cst) & kFFlagsCancelled) {
+        inProgress.fetch_sub(1, std::memory_order_release);
         return;
       }
       DISPENSO_VERIF_POINT(::dispenso::verif::kTimedAfterCancelTest);
-
-      inProgress.fetch_add(1, std::memory_order_acq_rel);
 
       auto wrap = [&f, this, me = std::move(me)]() mutable {
         if (!(flags.load(std::memory_order_acquire) & kFFlagsCancelled)) {
           if (!f()) {
             timesToRun.store(0, std::memory_order_release);
             flags.fetch_or(kFFlagsCancelled, std::memory_order_acq_rel);
-            func = {};
+            // func is deliberately not cleared here: the scheduler thread may be executing it for
+            // the next period at this moment, and other in-flight invocations reference the
+            // functor it owns.  It is released by ~TimedTask or together with this object.
           }
           count.fetch_add(1, std::memory_order_acq_rel);
         }
